@@ -318,6 +318,14 @@ end Impl
 
 /-! ## function designators: the keys, tests, predicates and mapped functions of the harness -/
 
+def optObj' : Option Obj → Obj
+  | none => .nil
+  | some o => o
+
+def optNat' : Option Nat → Obj
+  | none => .nil
+  | some n => .int n
+
 inductive Fn where
   | car | cdr | charCode | succ | neg | mod2 | upcase          -- unary, value
   | evenp | oddp | plusp | null | consp                        -- unary, boolean
@@ -325,11 +333,33 @@ inductive Fn where
   | eq | eql | equal | lt | le | gt | ge | numEq | charEq | charLt  -- binary, boolean
   | sameParity                                                 -- (lambda (a b) (= (mod a 2) (mod b 2)))
   | add | sub | cons | list | max                              -- n-ary, value
+  -- user lambdas that themselves call sequence functions (re-entrancy through other forms), on
+  -- elements that are proper lists: (lambda (x) (count 'o x)), (find 'o x), (position 'o x),
+  -- (remove 'o x), (remove-duplicates x), (reverse x), (length x), (reduce '+ x), (member 'o x)
+  | seqCount (o : Obj) | seqFind (o : Obj) | seqPosition (o : Obj) | seqRemove (o : Obj)
+  | seqDedup | seqReverse | seqLength | seqSum | seqMember (o : Obj)
+  | seqMin                                 -- (lambda (x) (first (sort (reverse x) '<))): a nested sort
+  -- (lambda (a b) (subsetp a b)), (search a b), (and (subsetp a b) (subsetp b a)),
+  -- (= (count 'o a) (count 'o b)), (< (length a) (length b))
+  | seqSubsetp | seqSearch | seqSameSet | seqSameCount (o : Obj) | seqShorter
   deriving DecidableEq, Repr
 
 def atomic : Obj → Bool
   | .cons _ _ => false
   | _ => true
+
+/-- the elements of a proper list object (`nil` = the empty list); `none` for atoms and dotted lists -/
+def Obj.toList? : Obj → Option (List Obj)
+  | .nil => some []
+  | .cons a d => (Obj.toList? d).map (fun l => a :: l)
+  | _ => none
+
+def structEq (a b : Obj) : Bool := decide (a = b)
+
+def intsOf (l : List Obj) : Option (List Int) :=
+  l.mapM (fun o => match o with
+    | .int i => some i
+    | _ => none)
 
 /-- application; `none` = outside the function's domain (the harness never generates that) -/
 def Fn.call : Fn → List Obj → Option Obj
@@ -369,6 +399,39 @@ def Fn.call : Fn → List Obj → Option Obj
   | .list, xs => some (Obj.ofList xs)
   | .max, [.int a] => some (.int a)
   | .max, [.int a, .int b] => some (.int (if a ≤ b then b else a))
+  | .seqCount o, [x] => x.toList?.map (fun l => .int (count (structEq o) 0 l.length l))
+  | .seqFind o, [x] => x.toList?.map (fun l => optObj' (find (structEq o) 0 l.length false l))
+  | .seqPosition o, [x] => x.toList?.map (fun l => optNat' (position (structEq o) 0 l.length false l))
+  | .seqRemove o, [x] => x.toList?.map (fun l => Obj.ofList (remove (structEq o) 0 l.length none false l))
+  | .seqDedup, [x] => x.toList?.map (fun l => Obj.ofList (removeDuplicates structEq 0 l.length false l))
+  | .seqReverse, [x] => x.toList?.map (fun l => Obj.ofList l.reverse)
+  | .seqLength, [x] => x.toList?.map (fun l => .int l.length)
+  | .seqSum, [x] => (x.toList?.bind intsOf).map (fun is => .int (is.foldl (· + ·) 0))
+  | .seqMember o, [x] => x.toList?.map (fun l => Obj.ofList (member (structEq o) l))
+  | .seqMin, [x] => (x.toList?.bind intsOf).map (fun is =>
+      match stableSort (fun a b : Int => decide (a < b)) id is.reverse with
+      | [] => .nil
+      | m :: _ => .int m)
+  | .seqSubsetp, [a, b] => do
+      let la ← a.toList?
+      let lb ← b.toList?
+      pure (ofBool (subsetp structEq la lb))
+  | .seqSearch, [a, b] => do
+      let la ← a.toList?
+      let lb ← b.toList?
+      pure (optNat' (search structEq 0 la.length 0 lb.length false la lb))
+  | .seqSameSet, [a, b] => do
+      let la ← a.toList?
+      let lb ← b.toList?
+      pure (ofBool (subsetp structEq la lb && subsetp structEq lb la))
+  | .seqSameCount o, [a, b] => do
+      let la ← a.toList?
+      let lb ← b.toList?
+      pure (ofBool (count (structEq o) 0 la.length la = count (structEq o) 0 lb.length lb))
+  | .seqShorter, [a, b] => do
+      let la ← a.toList?
+      let lb ← b.toList?
+      pure (ofBool (la.length < lb.length))
   | _, _ => none
 
 /-- total application used after the driver has checked the domain -/
@@ -384,6 +447,46 @@ def Fn.app1 (f : Option Fn) (x : Obj) : Obj :=
 
 def Fn.test2 (f : Fn) (a b : Obj) : Bool := truthy (f.app [a, b])
 def Fn.pred1 (f : Fn) (a : Obj) : Bool := truthy (f.app [a])
+
+/-! ## user functions that re-enter the enclosing call
+
+  `(lambda (x) (if (consp x) (funcall f x) (base x)))` where `f` is the function whose body is the
+  very call being evaluated: on a nested list the enclosing call `F` runs again (with the same user
+  function one level down), on an atom the base function. `fuel` bounds the nesting depth of the
+  data; the driver supplies more fuel than the data is deep. `none` = outside the domain. -/
+
+def selfApply (F : (Obj → Option Obj) → List Obj → Option Obj) (base : Obj → Option Obj) :
+    Nat → Obj → Option Obj
+  | 0, x => if atomic x then base x else none
+  | n + 1, x =>
+    if atomic x then base x
+    else match x.toList? with
+      | some l => F (selfApply F base n) l
+      | none => none
+
+/-- a `:test` function of a one-sequence function that re-enters the call on both of its arguments:
+    `(lambda (a b) (if (and (consp a) (consp b)) (equal (funcall f a) (funcall f b)) (equal a b)))` -/
+def selfApplyT (F : (Obj → Obj → Option Obj) → List Obj → Option Obj) : Nat → Obj → Obj → Option Obj
+  | 0, a, b => if atomic a || atomic b then some (ofBool (a = b)) else none
+  | n + 1, a, b =>
+    if atomic a || atomic b then some (ofBool (a = b))
+    else match a.toList?, b.toList? with
+      | some la, some lb =>
+        match F (selfApplyT F n) la, F (selfApplyT F n) lb with
+        | some ra, some rb => some (ofBool (ra = rb))
+        | _, _ => none
+      | _, _ => none
+
+/-- the two-argument form for `:test` functions of the two-sequence functions:
+    `(lambda (a b) (if (and (consp a) (consp b)) (funcall f a b) (base a b)))` -/
+def selfApply2 (F : (Obj → Obj → Option Obj) → List Obj → List Obj → Option Obj)
+    (base : Obj → Obj → Option Obj) : Nat → Obj → Obj → Option Obj
+  | 0, a, b => if atomic a || atomic b then base a b else none
+  | n + 1, a, b =>
+    if atomic a || atomic b then base a b
+    else match a.toList?, b.toList? with
+      | some la, some lb => F (selfApply2 F base n) la lb
+      | _, _ => none
 
 /-! ## keyword record and sequences of the three kinds -/
 
